@@ -41,8 +41,8 @@ PROPS["C16"] = {
 PROPS["C14"] = {
     "tasks": lambda tier: table_tasks("table_c14"),
     "level": "proof",
-    "level_text": "(work in progress: shipped tables only) WF of the registry built by each shipped filler, row by row.",
-    "level_note": "history part (mutator contracts) not yet registered",
+    "level_text": "Shipped tables: the three fillers are executed from their real AST (AddUnit/AddUnitBase/AddCategory/UnitInfo bodies included) and the resulting registry is checked row by row for W1 (symbol/list agreement, one quantity type per symbol), W2 (first-listed unit has identity to-base/from-base, proved for all reals by z3) and W3 (category quantity type, default/valid units, default value inside limits). The any-history half (mutator contracts preserving WF) is not yet claimed.",
+    "level_note": "history part (mutator contracts) not yet registered; floats are reals; pyvc Python semantics",
 }
 
 SC = "barril.units._scalar:Scalar"
@@ -50,13 +50,13 @@ QM = "barril.units._quantity"
 PROPS["C02"] = {
     "tasks": lambda tier: [V(UDB + ":UnitDatabase.Convert"), V(UDB + ":UnitDatabase.GetInfo"), V(QM + ":Quantity.ConvertScalarValue"), V(QM + ":Quantity.__init__"), V(QM + ":ObtainQuantity"), V(SC + ".GetAbstractValue")],
     "level": "proof",
-    "level_text": "(in progress) functional contracts of the conversion routes against the spec function conv",
+    "level_text": "Functional contracts, proved of the real bodies for arbitrary well-formed registries and all values: UnitDatabase.Convert (float/int/list/tuple/ndarray, elementwise, kind preserving) = conv; Quantity.ConvertScalarValue; Quantity.__init__ establishes the cached to-base function; ObtainQuantity resolution; Scalar.GetAbstractValue (own unit returns the stored value for simple and derived quantities) and CreateCopy on Scalars keep category. Routes not yet under contract: Array.GetValues, FixedArray.IndexAsScalar/ChangingIndex, ChangeScalars, UnitSystemManager.ConvertToCurrent.",
     "level_note": "floats are reals; WF/QI assumed for inputs",
 }
 
 PROPS["C08"] = {
     "tasks": lambda tier: [V(SC + ".__lt__#ordering"), ("lemma_c01_compose", {})],
     "level": "proof",
-    "level_text": "(in progress)",
+    "level_text": "Ordering: Scalar <, <=, >, >= evaluated through Python's rich-comparison dispatch on the real __lt__/__le__/__gt__/__ge__ bodies are proved equal to the same operator on value(a) and conv(unit(b)->unit(a))(value(b)) for arbitrary registered units of one quantity type, TypeError for different quantity types; with the C01 monotonicity lemma this is the order of physical amounts. Equality totality/symmetry and FractionScalar ordering are not yet under contract.",
     "level_note": "floats are reals; WF/QI assumed for inputs",
 }
